@@ -138,4 +138,4 @@ def main(repo='/repo', out='/verif/coq/theories/Gen/WindowGen.v'):
 
 
 if __name__ == '__main__':
-    print(emit(translate(sys.argv[1] if len(sys.argv) > 1 else '/repo')))
+    print(main(sys.argv[1] if len(sys.argv) > 1 else '/repo'))
